@@ -49,7 +49,7 @@ CHECKS.update({
         "option), event statistics only on event draws with their identifying fields, divergence fields <=> Progress.diverging, "
         "transformation-update events <=> the next trajectory runs under a different transformation id, every transformation a draw starts "
         "from was announced by an update event (also across a second set_position in the middle of a history and with num_tune = 0), a "
-        "change of the scales (hook read-back) always carries the event, counters +1, chain constant.",
+        "change of the scales (hook read-back) always carries the event, counters +1 (also across failed draw calls), chain constant.",
         "Public API only. Option -> statistic mapping (gradient, unconstrained_draw, transformed_*, mass-matrix payload) is part of the oracle.",
         "DESIGN.md §3 C16",
     ),
@@ -162,7 +162,8 @@ CHECKS.update({
         "the scale estimate, in draws and/or gradients) after a sane window: every std / inverse std / sqrt eigenvalue finite and > 0, std * inverse "
         "std = 1 (also where clamped), log-determinant finite and consistent, non-finite "
         "input keeps the previous value, no panic, no hang (60 s on a helper thread); (4) adapted chains with store_transformed: "
-        "|y + grad_y| / |y| small after 150 warmup draws, scales positive finite at every draw, fisher_distance statistic consistent.",
+        "|y + grad_y| / |y| small after 150 warmup draws, scales positive finite at every draw, fisher_distance statistic consistent, and every "
+        "estimate that a diagonal chain installs on a diagonal Gaussian (any window of >= 3 points) is exact.",
         "Low-rank exactness uses eigval_cutoff = 1, gamma = 1e-12 (default cutoff deliberately drops eigenvalues in [1/2,2]). Tolerances scale with the condition number.",
         "DESIGN.md §3 C08",
     ),
@@ -179,7 +180,9 @@ CHECKS.update({
         "only with a full window (early size, then geometrically growing sizes) and only if another full window fits before the final "
         "step-size window, is not skipped when due, the window grows by the configured factor, nothing is fed in the final window, the first "
         "transformation change costs extra density evaluations (re-run search), and dual averaging replayed from the reported acceptance "
-        "statistics reproduces step_size_bar - with the symmetric statistic inside the final window; the same replay for the Adam method.",
+        "statistics reproduces step_size_bar - with the symmetric statistic inside the final window; the same replay for the Adam method. For the "
+        "diagonal presets the contents of both windows are tracked (positions and gradients of the counted draws) and every installed estimate is "
+        "recomputed from the window in use alone (ratio of draw and gradient variance, or the draw variance with the draw-only option).",
         "+-1 draw slack on window boundaries; far-from-start divergent draws may count either way; before the final window either statistic is accepted in the replay.",
         "DESIGN.md §3 C09",
     ),
@@ -240,7 +243,9 @@ CHECKS.update({
         "the real Sampler with num_chains <, =, > num_cores, per-chain delays and perturbed schedules. Every call must return; a run that is not "
         "aborted ends with exactly num_tune+num_draws records per chain, in order, identical to the uninterrupted run, and the finalized trace "
         "equals the records; an aborted run returns per-chain prefixes of the uninterrupted run; at quiescent points progress() agrees with the "
-        "trace (finished draws, post-warmup divergences, step totals). A call that does not return within 60 s while the process consumes no "
+        "trace (finished draws, post-warmup divergences as recorded in the diverging statistic, step totals); runs of zero length, runs with "
+        "injected density errors (divergent draws), slow record_sample and invalid first starting points are part of the cases; an aborted run "
+        "returns every chain that recorded something. A call that does not return within 60 s while the process consumes no "
         "CPU time and whose chains are not all paused or finished (judged at the schedule points) is re-run in up to four fresh processes, each repeating "
         "the case 40 times; only a reproduced stall is a deadlock, any other watchdog expiry is inconclusive.",
         "Termination is bounded (watchdog), not proven. Scripts end with resume or abort.",
@@ -253,7 +258,7 @@ CHECKS.update({
         "draw, after record, before try_recv) at a random draw; pause() is issued and returns, the gate is released (systematic placement), "
         "plus random placements with several held chains and bursts of queued resume / pause commands. The recording backend and the client "
         "share one logical clock: per chain the number of records between pause-returned and resume-called is <= 1 + queued commands, nothing is "
-        "recorded between two quiescent points of one pause, an unstarted chain has no records, and after resume the final trace is bit-identical "
+        "recorded between two quiescent points of one pause, an unstarted chain has no records (also while it retries invalid starting points), and after resume the final trace is bit-identical "
         "to the uninterrupted run (checked with the C11 oracles).",
         "Cases whose gate is never reached are inconclusive. Evidence lists the coverage per pause point.",
         "DESIGN.md §3 C12",
@@ -264,7 +269,8 @@ CHECKS.update({
         "Faults: unrecoverable logp error at a chosen evaluation (initialisation, first draw, warmup, warmup/sampling boundary, last draw, inside the "
         "re-run of the step size search) in one, "
         "two or several chains; recoverable logp errors; storage record_sample / finalize / initialize_trace_for_chain errors; Model::math error in "
-        "a chain or in the controller; init_position error; all 500 initial points invalid; a density that is never finite - crossed with presets, chain index, num_chains vs "
+        "a chain or in the controller; init_position error; all 500 initial points invalid; first starting points with a non-finite log density; a "
+        "density that is never finite; the real CSV backend writing to a full device - crossed with presets, chain index, num_chains vs "
         "num_cores, schedule perturbation and interleaved user commands (storm, wait, direct abort, progress polling). Oracles: wait_timeout yields Err (never a "
         "trace, never a panic in the calling thread, never a hang); recoverable errors end with a complete trace; no client call panics.",
         "abort() is only required not to panic or hang. Recoverable-error cases on NUTS presets use a fixed step size (known C05 finding in the re-run search).",
